@@ -1,5 +1,6 @@
 """C10 - reset() returns an online monitor to its initial state."""
 import copy
+from fractions import Fraction
 
 from hypothesis import strategies as st
 
@@ -20,7 +21,8 @@ RULE = ('Generated call histories (the whole history is one shrinkable value): a
         'update(sample or batch) and reset() operations; reset() may be the first operation. A shadow monitor is constructed fresh '
         '(parse, pastify) at every reset and fed the same post-reset inputs. Oracle: after every update the real output equals the '
         'shadow output, and (discrete) sampling_violation_counter is equal after every operation; the first time stamp after a reset '
-        'is arbitrary (a gap that would be counted if previous_time survived). Non-trivial = a reset after >= 2 updates of a formula '
+        'is arbitrary (a gap that would be counted if previous_time survived). A quarter of the histories contain an operation that raises on some data (division by a signal reaching 0, root of a negative sample): '
+        'such an update() is followed by reset(); a quarter of the discrete histories change the sampling period on the live object (set_sampling_period, then reset()) and the shadow is built with the new period. Non-trivial = a reset after >= 2 updates of a formula '
         'with a stateful operator, followed by >= 2 updates; distinct = distinct (specification, history) digests.')
 
 ASSUMPTIONS = [
@@ -29,6 +31,7 @@ ASSUMPTIONS = [
 ]
 
 KINDS = ('dt_on', 'dt_on_past', 'ct_on')
+FAULT_VAR = 'zz'
 
 
 @st.composite
@@ -36,20 +39,56 @@ def histories(draw, tier, kind):
     c = draw(decomposed(kind, tier))
     c.pop('trace', None)
     c.pop('signals', None)
+    fault = draw(st.integers(0, 3)) == 0
+    if fault:
+        # an operation that raises on some data (division by a signal that reaches 0, root of a negative signal): an
+        # update() that fails half-way is followed by reset()
+        z = ('var', FAULT_VAR)
+        term = ('bin', '/', ('const', 2.0), z) if draw(st.booleans()) else ('un', 'sqrt', z)
+        guard = ('pred', draw(st.sampled_from(['>=', '<='])), term, ('const', draw(st.sampled_from([0.5, 1.0, 4.0]))))
+        f = from_json(c['formula'])
+        c['formula'] = ('bin', draw(st.sampled_from(['and', 'or', 'implies'])), f, guard)
+        c['vars'] = list(c['vars']) + [FAULT_VAR]
+        c['fault_value'] = 0.0 if term[0] == 'bin' else -1.0
     vs = c['vars']
+    good = st.sampled_from([0.5, 1.0, 2.0, 4.0])
     nops = draw(st.integers(2, 14 if tier == 'quick' else 30))
     ops = []
     nres = 0
+    reconf = kind.startswith('dt') and draw(st.integers(0, 3)) == 0
     for i in range(nops):
         r = draw(st.integers(0, 9))
-        if r == 0 or (i == 0 and r == 1) or (r == 1 and nres < 3 and i > 2):
+        if fault and r == 2 and kind.startswith('dt'):
+            vals = {v: draw(F.values()) for v in vs}
+            vals[FAULT_VAR] = c['fault_value']
+            ops.append(['update', draw(st.sampled_from([16, 16, 17, 20])), vals, 'bad'])
+            ops.append(['reset'])
+            nres += 1
+        elif reconf and r == 3:
+            # the sampling period is changed on the live object; it takes effect with the reset() that follows
+            ops.append(['period', draw(st.sampled_from([[1, 's'], [500, 'ms'], [250, 'ms'], [1000, 'ms']]))])
+            ops.append(['reset'])
+            nres += 1
+        elif r == 0 or (i == 0 and r == 1) or (r == 1 and nres < 3 and i > 2):
             ops.append(['reset'])
             nres += 1
         elif kind.startswith('dt'):
             gap16 = draw(st.sampled_from([16, 16, 16, 16, 17, 18, 19, 20, 24, 13, 8, 160]))   # gap in 16ths of the period
-            ops.append(['update', gap16, {v: draw(F.values()) for v in vs}])
+            vals = {v: draw(F.values()) for v in vs}
+            if fault:
+                vals[FAULT_VAR] = draw(good)
+            ops.append(['update', gap16, vals])
         else:
-            ops.append(['update', {v: draw(grid_signal(0, max_samples=3)) for v in vs}])
+            batch = {v: draw(grid_signal(0, max_samples=3)) for v in vs}
+            bad = fault and r == 2
+            if fault:
+                batch[FAULT_VAR] = [[k, draw(good)] for k, _ in batch[FAULT_VAR]]
+                if bad:
+                    batch[FAULT_VAR][-1][1] = c['fault_value']
+            ops.append(['update', batch] + (['bad'] if bad else []))
+            if bad:
+                ops.append(['reset'])
+                nres += 1
     c['ops'] = ops
     if kind.startswith('dt') and draw(st.booleans()):
         # an explicitly configured tolerance (the period stays 1 s so that bounds written in samples stay valid)
@@ -69,9 +108,9 @@ class Runner(object):
         self.t16 = None       # discrete: time in 16ths
         self.base = 0         # dense: offset in cells of the next batch
 
-    def update(self, op, t16=None):
+    def update(self, op, t=None):
         if self.kind.startswith('dt'):
-            return self.spec.update(t16 / 16.0, [(v, float(op[2][v])) for v in self.used])
+            return self.spec.update(t, [(v, float(op[2][v])) for v in self.used])
         batch = {}
         length = 0
         for v in self.used:
@@ -93,10 +132,12 @@ def check(case):
         return DISCARD('no-variable', labels)
     if kind == 'dt_on_past' and F.horizon(f) is None:
         return DISCARD('unbounded', labels)
+    cfg = {'sampling': case.get('sampling'), 'period_s': Fraction(1)}
+
     def fresh():
         spec = build_modular(case)
-        if case.get('sampling'):
-            spec.set_sampling_period(*case['sampling'])
+        if cfg['sampling']:
+            spec.set_sampling_period(*cfg['sampling'])
         return spec
     try:
         real = Runner(case, fresh())
@@ -104,13 +145,28 @@ def check(case):
     except Exception as e:  # noqa
         return DISCARD('build-raises(C14/C17):' + type(e).__name__, labels)
     desc = describe(dict(case, trace=None)) + '\nsampling configuration: %s\nhistory: %s' % (case.get('sampling'), case['ops'])
-    t16 = 0
+    t = Fraction(0)
+    dirty = False           # an update() raised: nothing is demanded until the next reset()
+    failed_updates = 0
+    reconfigured = 0
     updates_since_reset = 0
     updates_before_reset = 0
     resets = 0
     good_resets = 0
     log = []
     for idx, op in enumerate(case['ops']):
+        if op[0] == 'period':
+            tol = cfg['sampling'][2] if cfg['sampling'] else 0.1
+            cfg['sampling'] = [op[1][0], op[1][1], tol]
+            cfg['period_s'] = Fraction(op[1][0]) * {'s': 1, 'ms': Fraction(1, 1000)}[op[1][1]]
+            try:
+                real.spec.set_sampling_period(*cfg['sampling'])
+            except Exception as e:  # noqa
+                return DISCARD('set_sampling_period-raises:' + type(e).__name__, labels)
+            dirty = True      # takes effect with the next reset()
+            reconfigured += 1
+            log.append('period %s' % (op[1],))
+            continue
         if op[0] == 'reset':
             try:
                 real.spec.reset()
@@ -123,21 +179,39 @@ def check(case):
             except Exception as e:  # noqa
                 return DISCARD('build-raises', labels)
             real.base = 0
+            dirty = False
             resets += 1
             if updates_since_reset >= 2:
                 updates_before_reset = updates_since_reset
             updates_since_reset = 0
             log.append('reset')
         else:
+            if dirty:
+                continue
             if kind.startswith('dt'):
                 # the first stamp after a reset / at the start is arbitrary: jump by 10 periods
-                t16 = t16 + (op[1] if updates_since_reset > 0 else 160)
+                t = t + Fraction(op[1] if updates_since_reset > 0 else 160, 16) * cfg['period_s']
+            tf = float(t)
+            s_exc = None
             try:
-                s_out = shadow.update(op, t16)
+                s_out = shadow.update(op, tf)
             except Exception as e:  # noqa
-                return DISCARD('shadow-raises(C17):' + type(e).__name__, labels)
+                s_exc = e
+            if s_exc is not None:
+                if len(op) > 2 and op[-1] == 'bad':
+                    # the fresh monitor fails on this input as well: the monitor under test is fed the same input, whatever
+                    # it does is followed by reset()
+                    try:
+                        real.update(op, tf)
+                    except Exception:  # noqa
+                        pass
+                    dirty = True
+                    failed_updates += 1
+                    log.append('failed update')
+                    continue
+                return DISCARD('shadow-raises(C17):' + type(s_exc).__name__, labels)
             try:
-                r_out = real.update(op, t16)
+                r_out = real.update(op, tf)
             except Exception as e:  # noqa
                 o = exc_outcome(e)
                 return FAIL('update-after-reset-raises:%s:%s' % (kind, o[1]) if resets else 'HARNESS:update-raises',
@@ -160,6 +234,10 @@ def check(case):
     stateful = any(o in F.STATEFUL_ONLINE for o in F.ops(f)) or kind == 'ct_on'
     if resets:
         labels.append('has-reset')
+    if failed_updates:
+        labels.append('failed-update-then-reset')
+    if reconfigured:
+        labels.append('period-changed-then-reset')
     return PASS(stateful and good_resets >= 1, labels)
 
 
